@@ -48,10 +48,19 @@ fn gen_props(rng: &mut Rng, simple: bool) -> BTreeMap<String, PV> {
 
 fn gen_input(seed: u64, k: usize) -> Input {
     let mut rng = Rng::derive(seed, k as u64);
-    let family = ["no-relationships", "parallel-relationships", "plain", "self-loops", "dense"][k % 5];
-    let n = 1 + rng.below(if family == "dense" { 6 } else { 12 });
+    // every 20th input is large: hundreds of nodes that each carry a padded string besides the usual
+    // properties, so that the property tree, the node table and the segments span many pages
+    let large = k % 20 == 19;
+    let family = if large { "large" } else { ["no-relationships", "parallel-relationships", "plain", "self-loops", "dense"][k % 5] };
+    let n = if large { 150 + rng.below(450) } else { 1 + rng.below(if family == "dense" { 6 } else { 12 }) };
     let simple = k % 2 == 0;
-    let nodes: Vec<_> = (0..n).map(|i| (5000 + i as u64 * 3, rng.pick(&LABELS).to_string(), gen_props(&mut rng, simple))).collect();
+    let mut nodes: Vec<_> = (0..n).map(|i| (5000 + i as u64 * 3, rng.pick(&LABELS).to_string(), gen_props(&mut rng, simple))).collect();
+    if large {
+        for (i, node) in nodes.iter_mut().enumerate() {
+            let len = 20 + rng.below(180);
+            node.2.insert("pad".to_string(), PV::String(format!("{i:05}-{}", "x".repeat(len))));
+        }
+    }
     let mut edges = Vec::new();
     let ne = match family {
         "no-relationships" => 0,
@@ -371,6 +380,7 @@ pub fn main(args: &Args) -> Report {
     rep.floor("pairs", rep.counter("pairs"), if t { 2000 } else { 200 });
     rep.floor("pairs without relationships", rep.counter("pairs.no-relationships"), if t { 400 } else { 40 });
     rep.floor("pairs with parallel relationships", rep.counter("pairs.parallel-relationships"), if t { 400 } else { 40 });
+    rep.floor("pairs with large inputs (property tree of many pages)", rep.counter("pairs.large"), if t { 100 } else { 10 });
     rep.floor("queries compared", rep.counter("queries_compared"), if t { 50_000 } else { 5000 });
     rep
 }
